@@ -117,4 +117,97 @@ def acquireSeq (t : Nat) : List Act := [.localLock t, .etcdEnqueue t, .etcdGrant
 def releaseSeq (t : Nat) : List Act := [.etcdUnlock t, .localUnlock t]
 def failSeq (t : Nat) : List Act := [.localLock t, .etcdEnqueue t, .etcdTimeout t, .localUnlockFail t]
 
+/-! ### `mutex.Lock` / `mutex.Unlock` as one function per call (extension "cluster", 2026-09-30)
+
+The target of the tie by translation (`Gen/FactsC18IR.lean`, `Proofs/ClusterMutexIR.lean`):
+`lockCall` / `unlockCall` are what one call of `mutex.Lock` / `mutex.Unlock` does to the two pieces
+of state it touches — `held` (the object's `sync.Mutex`) and `key` (the member's key under the lock
+prefix) — together with the **sequence of atomic events** in program order (`MEv`), so that the
+order of the local and the etcd operations is part of what is compared. The etcd client is the
+environment: `lockO ctx` is the outcome of `concurrency.Mutex.Lock(ctx)`, `delO ctx` says whether
+`concurrency.Mutex.Unlock(ctx)` succeeded. `Proofs/ClusterMutexIR.lean` maps the event sequences to
+schedules of `step` (`lockCall_is_schedule`, `unlockCall_is_schedule`). -/
+
+/-- `context.Background()` / the `n`-th `context.WithTimeout(context.Background(), d)` of the call (two
+contexts with the same timeout are different: the first may have expired when the second is created). -/
+inductive Ctx
+  | background
+  | timeout (d : Nat) (n : Nat)
+deriving Repr, DecidableEq
+
+/-- Outcomes of etcd's `concurrency.Mutex.Lock(ctx)` (see the contract above). -/
+inductive LockOutcome
+  | granted        -- nil: the key exists and is the head of the queue
+  | timedOut       -- error while waiting: etcd's own cleanup has deleted the key
+  | lostResponse   -- error of the first request although it was applied: the key exists
+  | earlyError     -- error of the first request, not applied: nothing changed
+deriving Repr, DecidableEq
+
+inductive MEv
+  | localLock | localUnlock
+  | etcdLock (o : LockOutcome)
+  | etcdUnlock (ok : Bool)
+deriving Repr, DecidableEq
+
+/-- `m.m.Lock(ctx)`: (key afterwards, err != nil) -/
+def etcdLockCall (key : Bool) : LockOutcome → Bool × Bool
+  | .granted => (true, false)
+  | .timedOut => (false, true)
+  | .lostResponse => (true, true)
+  | .earlyError => (key, true)
+
+/-- `m.m.Unlock(ctx)`: (key afterwards, err != nil) -/
+def etcdUnlockCall (key : Bool) (ok : Bool) : Bool × Bool := if ok then (false, false) else (key, true)
+
+structure MOut where
+  held : Bool
+  key : Bool
+  err : Bool
+  trace : List MEv
+deriving Repr, DecidableEq
+
+/-- `mutex.Lock()` (returns once the local mutex could be taken). -/
+def lockCall (tmo : Nat) (lockO : Ctx → LockOutcome) (delO : Ctx → Bool) (key : Bool) : MOut :=
+  let o := lockO (.timeout tmo 1)
+  let r := etcdLockCall key o
+  if r.2 then
+    let d := delO (.timeout tmo 2)
+    ⟨false, (etcdUnlockCall r.1 d).1, true, [.localLock, .etcdLock o, .etcdUnlock d, .localUnlock]⟩
+  else ⟨true, r.1, false, [.localLock, .etcdLock o]⟩
+
+/-- `mutex.Unlock()` -/
+def unlockCall (tmo : Nat) (delO : Ctx → Bool) (key : Bool) : MOut :=
+  let d := delO (.timeout tmo 1)
+  ⟨false, (etcdUnlockCall key d).1, (etcdUnlockCall key d).2, [.etcdUnlock d, .localUnlock]⟩
+
+/-- The schedule of `step` a call of `mutex.Lock` by thread `t` stands for (cleanup delete succeeded). -/
+def lockActs (t : Nat) : LockOutcome → List Act
+  | .granted => [.localLock t, .etcdEnqueue t, .etcdGranted t]
+  | .timedOut => [.localLock t, .etcdEnqueue t, .etcdTimeout t, .localUnlockFail t]
+  | .lostResponse => [.localLock t, .etcdEnqueue t, .etcdTimeout t, .localUnlockFail t]
+  | .earlyError => [.localLock t, .etcdErrorEarly t, .localUnlockFail t]
+
+/-! ### Lease expiry (extension "cluster", 2026-09-30)
+
+etcd deletes a session's keys when its lease expires — also while a goroutine of that member is inside the
+critical section (the member does not notice). `ActX` adds that environment step to `Act`; `step` / `run`
+are unchanged (they are the histories without expiry: `runX_base`). -/
+
+inductive ActX
+  | base (a : Act)
+  | leaseExpire (k : Nat)   -- the lease of session k expires: its key is deleted
+deriving Repr, DecidableEq
+
+def State.expire (s : State) (k : Nat) : State := { s with queue := s.queue.erase k }
+
+def stepX (c : Cfg) (s : State) : ActX → Option State
+  | .base a => step c s a
+  | .leaseExpire k => some (s.expire k)
+
+def runX (c : Cfg) : State → List ActX → Option State
+  | s, [] => some s
+  | s, a :: as => match stepX c s a with
+    | none => none
+    | some s' => runX c s' as
+
 end EgVerif.ClusterMutex
